@@ -62,6 +62,29 @@ func (f *Frame) syntacticModObjs(blocks map[*ssa.BasicBlock]bool, st *State) []s
 			if f.freshResult(v) {
 				return "", true
 			}
+			if phi, isPhi := v.(*ssa.Phi); isPhi {
+				// a variable that holds nil or buffers made inside (var b []byte; b = fresh())
+				all := true
+				for _, e := range phi.Edges {
+					if c, isConst := e.(*ssa.Const); isConst && c.IsNil() {
+						continue
+					}
+					if e == ssa.Value(phi) {
+						continue
+					}
+					if _, isPhi2 := e.(*ssa.Phi); isPhi2 {
+						all = false // no recursion through further merges
+						break
+					}
+					if s, ok := rootSlice(e); !ok || s != "" {
+						all = false
+						break
+					}
+				}
+				if all {
+					return "", true
+				}
+			}
 			return "", false
 		}
 		return "(pobj (sbase " + f.val(v) + "))", true
